@@ -659,6 +659,13 @@ class CaseRun:
         if self.kind == "glue":
             cfg["style"] = rng.choice(["interleaved", "burst"])
         plans = build_plans(case, cfg, rng)
+        # a tiny autoFragmentSize times a huge message is hundreds of thousands of frames (and, cut at every
+        # frame border, millions of read events): keep the frame count of one message below ~3000
+        for d, role in (("c2s", "client"), ("s2c", "server")):
+            a = cfg["autofrag"][role]
+            longest = max([p["length"] for p in plans[d] if p["api"] in ("msg", "msg-dnc", "msg-sync", "prepared")] or [0])
+            if a and longest // a > 3000:
+                cfg["autofrag"][role] = longest // rng.randint(2, 3000) + 1
         mc, req, ms, acc, apply_ = MASK_VARIANTS[cfg["mask"]]
         so = {"maskServerFrames": ms, "requireMaskedClientFrames": req, "applyMask": apply_,
               "utf8validateIncoming": cfg["utf8"], "autoFragmentSize": cfg["autofrag"]["server"]}
@@ -786,9 +793,10 @@ class CaseRun:
         rs = self.rng_sched
         style = self.cfg["style"]
         guard = 0
+        guard_max = 3_000_000 + 40 * sum(p["length"] for sd in self.sides for p in sd.plans)
         while True:
             guard += 1
-            if guard > 3_000_000:
+            if guard > guard_max:
                 raise RuntimeError("drive: no progress bound hit")
             choices = []
             senders = [sd for sd in self.sides if sd.has_more()]
